@@ -21,6 +21,7 @@ import (
 	"github.com/oasisprotocol/oasis-core/go/common"
 	"github.com/oasisprotocol/oasis-core/go/common/cbor"
 	"github.com/oasisprotocol/oasis-core/go/common/logging"
+	"github.com/oasisprotocol/oasis-core/go/common/verifhook"
 	"github.com/oasisprotocol/oasis-core/go/common/version"
 	"github.com/oasisprotocol/oasis-core/go/runtime/host/protocol"
 
@@ -267,7 +268,7 @@ type Session struct {
 var callFaults = []string{"", "", "", "error-body", "wrong-id", "dup", "dup-many", "wrong-type", "bad-type", "corrupt", "corrupt", "len-short", "len-long", "len-zero", "len-over", "trunc-close", "stall", "stall-write", "garbage", "coalesce", "empty-body", "two-bodies", "id-max", "trickle-large", "close-before"}
 var reqFaults = []string{"", "", "", "dup-id", "corrupt", "corrupt", "unknown-body", "two-bodies", "handler-error", "handler-block", "len-over", "len-zero", "garbage", "trunc-close", "burst"}
 var noiseKinds = []string{"response-without-request", "bad-type", "zero-type", "response-id-max", "error-without-request"}
-var hsFaults = []string{"", "", "", "", "", "", "garbage-before", "wrong-body", "wrong-version", "error-body", "stall", "early-request", "close", "corrupt", "trunc", "len-over", "dup", "wrong-id"}
+var hsFaults = []string{"", "", "", "", "", "", "garbage-before", "wrong-body", "wrong-version", "error-body", "stall", "early-request", "close", "corrupt", "trunc", "len-over", "dup", "wrong-id", "ok-then-over", "ok-then-close", "ok-then-garbage"}
 
 // Generate implements core.Engine.
 func (StreamEngine) Generate(r *core.Rand, tier core.Tier) *core.Scenario {
@@ -1025,6 +1026,54 @@ func (x *session) handshake() *core.Violation {
 				return v
 			}
 			cancel()
+		case "ok-then-over", "ok-then-close", "ok-then-garbage":
+			// A correct answer immediately followed by something that ends the connection's read
+			// loop (an oversized length prefix, the peer hanging up, a frame that does not decode),
+			// in the one order that has the caller still inside InitHost when the read loop ends:
+			// InitHost is held at the point where it has accepted the answer and is about to mark
+			// the connection ready, the terminating bytes are delivered, the read loop's cleanup
+			// runs to its end, then InitHost is released.
+			x.broke = true
+			atReady, release, closed := make(chan struct{}), make(chan struct{}), make(chan struct{})
+			var once1, once2 sync.Once
+			verifhook.SetHandler(func(name string) {
+				switch name {
+				case "protocol.InitHost.beforeReady":
+					once1.Do(func() { close(atReady); <-release })
+				case "protocol.workerIncoming.closed":
+					once2.Do(func() { close(closed) })
+				}
+			})
+			x.deliver(good, x.s.Split)
+			held := false
+			select {
+			case <-atReady:
+				held = true
+			case <-done:
+			case <-time.After(streamWatchdog):
+				verifhook.SetHandler(nil)
+				core.Harnessf("stream: InitHost neither returned nor reached the point before the ready transition within %v\n%s", streamWatchdog, allStacks())
+			}
+			if held {
+				switch hs {
+				case "ok-then-over":
+					x.deliver([]byte{0xff, 0xff, 0xff, 0xff}, 0)
+				case "ok-then-close":
+					x.sc.change(func() { x.sc.inEOF = true })
+				default:
+					x.deliver(frame([]byte{0xff, 0xff, 0xff}), 0)
+				}
+				select {
+				case <-closed:
+					x.st.Inc("probe.stream.read_loop_ended_inside_handshake")
+				case <-time.After(streamWatchdog):
+					verifhook.SetHandler(nil)
+					close(release)
+					core.Harnessf("stream: the read loop did not end within %v after %s\n%s", streamWatchdog, hs, allStacks())
+				}
+				close(release)
+			}
+			verifhook.SetHandler(nil)
 		default:
 			core.Harnessf("stream: unknown handshake fault %q", hs)
 		}
@@ -1042,7 +1091,7 @@ func (x *session) handshake() *core.Violation {
 		return v
 	}
 	x.ready = r.err == nil
-	if hs == "corrupt" {
+	if hs == "corrupt" || strings.HasPrefix(hs, "ok-then-") {
 		x.st.Event("s%d handshake %q", x.idx, hs)
 	} else {
 		x.st.Event("s%d handshake %q ok=%v", x.idx, hs, x.ready)
@@ -1055,7 +1104,7 @@ func (x *session) handshake() *core.Violation {
 	}
 	if x.ready {
 		x.st.Inc("probe.stream.handshake_ok")
-		if info, err := x.conn.GetInfo(); err != nil || info == nil {
+		if info, err := x.conn.GetInfo(); (err != nil || info == nil) && !strings.HasPrefix(hs, "ok-then-") {
 			return x.viol("getinfo", "getinfo", "GetInfo after a successful handshake returned %v", err)
 		}
 	} else {
